@@ -26,6 +26,9 @@ class Opaque:
         return 'Opaque(%s)' % self.tag
 
 
+UNK = Opaque('unknown')
+
+
 class SArray:
     """Small dense array of normal forms.  `sample`: has a leading per-sample axis
     that is not represented (vectorised code is evaluated for the generic sample)."""
@@ -509,6 +512,8 @@ class SymEval:
 
     # ------------------------------------------------------------- expressions
     def truth(self, v):
+        if isinstance(v, Opaque):
+            return None
         if isinstance(v, bool) or v is None:
             return bool(v)
         if isinstance(v, (int, float)):
@@ -626,7 +631,7 @@ class SymEval:
                 return base
             if a == 'shape':
                 return ()
-            if a in ('copy',):
+            if a in ('copy', 'reshape'):
                 return Bound(base, a)
         if isinstance(base, PArr):
             if a == 'T':
@@ -649,7 +654,7 @@ class SymEval:
             return v
         if isinstance(node.op, ast.Not):
             t = self.truth(v)
-            return None if t is None else (not t)
+            return UNK if t is None else (not t)
         if isinstance(node.op, ast.Invert):
             return Opaque('invert', v)
         raise Unsupported('unary')
@@ -714,40 +719,40 @@ class SymEval:
             if a is None or b is None:
                 r = (a is None and b is None)
                 if (a is None) != (b is None) and (isinstance(a, Opaque) or isinstance(b, Opaque)):
-                    return None
+                    return UNK
                 return r if isinstance(op, ast.Is) else not r
-            return None
+            return UNK
         if isinstance(op, (ast.In, ast.NotIn)):
             if isinstance(b, (list, tuple)) and isinstance(a, (str, int)):
                 r = a in b
                 return r if isinstance(op, ast.In) else not r
-            return None
+            return UNK
         if isinstance(a, str) or isinstance(b, str):
             if isinstance(a, str) and isinstance(b, str):
                 if isinstance(op, ast.Eq):
                     return a == b
                 if isinstance(op, ast.NotEq):
                     return a != b
-            return None
+            return UNK
         try:
             ra, rb = self.rat(a), self.rat(b)
         except Unsupported:
-            return None
+            return UNK
         if self.A.is_const(ra) and self.A.is_const(rb):
             x, y = self.A.const_of(ra), self.A.const_of(rb)
             return {ast.Eq: x == y, ast.NotEq: x != y, ast.Lt: x < y, ast.LtE: x <= y,
                     ast.Gt: x > y, ast.GtE: x >= y}[type(op)]
-        return None
+        return UNK
 
     def e_BoolOp(self, node, env):
         vals = [self.truth(self.eval(v, env)) for v in node.values]
         if isinstance(node.op, ast.And):
             if any(v is False for v in vals):
                 return False
-            return True if all(v is True for v in vals) else None
+            return True if all(v is True for v in vals) else UNK
         if any(v is True for v in vals):
             return True
-        return False if all(v is False for v in vals) else None
+        return False if all(v is False for v in vals) else UNK
 
     def e_IfExp(self, node, env):
         c = None
@@ -1089,7 +1094,7 @@ class SymEval:
                 return Rec(dict(obj.cols), obj.kind, obj.name, obj.index)
             if name in ('to_frame', 'transpose'):
                 return obj
-        if isinstance(obj, (Rat, int, float)) and name == 'copy':
+        if isinstance(obj, (Rat, int, float)) and name in ('copy', 'reshape'):
             return obj
         return Opaque('method', obj, name)
 
@@ -1205,7 +1210,7 @@ class SymEval:
         if q in ('builtins.min', 'builtins.max'):
             return Opaque(q, *args)
         if q == 'builtins.all' or q == 'builtins.any':
-            return None
+            return UNK
         if q == 'builtins.bool':
             return self.truth(args[0])
         return Opaque('extcall', q, args, kwargs)
@@ -1223,7 +1228,7 @@ class SymEval:
             elif q.endswith('pandas.DataFrame') and is_frame:
                 r = True
         if isinstance(v, Opaque):
-            return None
+            return UNK
         return r
 
     def alloc(self, shape, default):
